@@ -223,13 +223,13 @@ class ComponentLevel3( ComponentLevel2 ):
       if Type.nbits != o2.nbits:
         raise InvalidConnectionError( f"Bitwidth mismatch when connecting a {Type2} constant "
                                       f"to signal {o1} with type {Type}." )
-      o2 = Const( Type, o2, s )
+      o2 = Const( Type, Type( o2 ), s ) # the value: the caller may go on using the object
     elif is_bitstruct_inst( o2 ):
       Type2 = type(o2)
       if Type is not Type2:
         raise InvalidConnectionError( f"We don't support connecting a {Type2} constant bitstruct"
                                       f"to non-bitstruct type {Type}" )
-      o2 = Const( Type, o2, s )
+      o2 = Const( Type, o2.clone(), s ) # the value: the caller may go on using the object
     else:
       raise InvalidConnectionError(f"\n>>> {o2} of type {type(o2)} is not a const! \n"
                                    f">>> It cannot be connected to signal {o1} of type {o1._dsl.Type}!\n"
